@@ -80,15 +80,26 @@ def maximal_safe_sequences_via_dominators(G : stdigraph.stDiGraph, X = set()) ->
     adj_dict = {u: list(G.successors(u)) for u in G.nodes()}
     adj_dict_rev = {u: list(G.predecessors(u)) for u in G.nodes()}
 
-    for (u,v) in G.edges:
+    # An edge whose tail is not reachable from the source, or whose head does not reach the sink (e.g. an edge of a
+    # cycle that nothing enters), lies on no source-to-sink walk: it has no dominators and belongs to no safe sequence
+    from_source = G.nodes_reachable(G.source)
+    to_sink = G.nodes_reaching(G.sink)
+    edges = [(u,v) for (u,v) in G.edges if u in from_source and v in to_sink]
+    if len(edges) < G.number_of_edges():
+        on_some_walk = set(edges)
+        X = [e for e in X if e in on_some_walk]
+        if len(X) == 0:
+            return []
+
+    for (u,v) in edges:
 
         s_idom = find_idom(adj_dict_rev, u, G.source)
         t_idom = find_idom(adj_dict    , v,   G.sink)
         s_idoms[(u,v)] = tuple(reversed(s_idom)) if s_idom != None else G.source
         t_idoms[(u,v)] = t_idom                  if t_idom != None else G.sink
 
-    T_s = dominators.Arc_Dominator_Tree(G.number_of_nodes(), G.source, s_idoms, G.edges, X, G.id+str("_s-domtree"))
-    T_t = dominators.Arc_Dominator_Tree(G.number_of_nodes(), G.sink  , t_idoms, G.edges, X, G.id+str("_t-domtree"))
+    T_s = dominators.Arc_Dominator_Tree(G.number_of_nodes(), G.source, s_idoms, edges, X, G.id+str("_s-domtree"))
+    T_t = dominators.Arc_Dominator_Tree(G.number_of_nodes(), G.sink  , t_idoms, edges, X, G.id+str("_t-domtree"))
 
     leaves_s_X = [ node for node,children in T_s.children_X.items() if len(children)==0 ] #those nodes in X that do not s-dominate other nodes with respect to X
 
